@@ -15,6 +15,7 @@ type Eval struct {
 	Inconclusive int
 	Nontrivial   bool
 	Summary      string
+	AuxHash      uint64 // event-log hashes of secondary runs (recoveries), folded into the run's hash
 }
 
 func newEval() *Eval {
